@@ -25,6 +25,12 @@ def run(ctx):
                                    select=lambda sc: any(s["a"] == "crash" and s["at"] == "wal" for s in sc["steps"])).run(pool, storelib.default_violation(ctx), cov)
             for k, v in st["feats"].items():
                 feats[k] = feats.get(k, 0) + v
+        seeds = [ctx.seed * 1000 + i for i in range(4 if ctx.quick() else 32)]
+        agg = storelib.random_runs(ctx, pool, cov, [dict(seed=sd, n=(250 if ctx.quick() else 600), caps=([] if i % 4 else [4, 4]), cache=0, pcrash=0.15, pflush=0.1,
+                                                         wal=True, maxrows=(10 if i % 2 else 30), bias=("grow" if i % 2 == 0 else ""))
+                                                    for i, sd in enumerate(seeds)])
+        if agg["crash_in_log"] == 0:
+            raise vlib.Undecided("vacuous: no crash inside a log append in the random runs")
     finally:
         pool.close()
     for f in ("crash-wal-len", "crash-wal-body", "crash-wal-sync", "torn-tail", "recover"):
